@@ -1,4 +1,5 @@
 import Gp.Lemmas.Layers.IcmpDefects
+import Gp.Lemmas.Layers.IcmpStack
 /-
   C06 for layers/icmp4.go, icmp6.go, icmp6msg.go (engine `licmp`): serialize (FixLengths and
   ComputeChecksums on) then decode returns the same layer and payload.
@@ -94,6 +95,42 @@ theorem reserialize_fixpoint (l : AnyLayer) (b b2 : SBuf) (foreign : Bytes) (h :
     rw [hser] at hspec2
     simp only [outOf, Res.ok.injEq, Prod.mk.injEq] at hspec2
     exact ⟨b'', ld', rfl, hspec2.1, hspec2.2⟩
+
+/-! ### stacks: SerializeLayers order (innermost first), decoded by the NewPacket chain -/
+
+/-- An ICMPv6 header whose type selects the message `l`, over `l`, over a payload: the packet
+    built from the written bytes has exactly the layers ICMPv6, `l`'s type and (for a non-empty
+    payload) Payload, with the written field values, no error layer and no truncation flag. -/
+theorem stack_roundtrip (hv : ICMPv6) (l : AnyLayer) (b : SBuf) (hI : Inv b)
+    (hwfh : wf (.icmp6 hv)) (hn : hv.pseudo ≠ .absent) (hwfl : wf l)
+    (hp : payloadAllowed l (contents b)) (hk : l.kind ≠ .icmp6)
+    (hdisp : ∀ w : ICMPv6, w.typeCode = hv.typeCode → nextICMPv6 w = l.kind.lt) :
+    ∃ b1 lf b2 hf H L acts,
+      l.serialize b ⟨true, true⟩ = .ok (b1, lf) ∧
+      (AnyLayer.icmp6 hv).serialize b1 ⟨true, true⟩ = .ok (b2, hf) ∧
+      pktRun 3 .icmp6 (contents b2) =
+        .ok ⟨.lay H :: .lay L :: (if contents b = [] then [] else [.payload (contents b)]),
+             acts, false, false⟩ ∧
+      strip H = strip hf ∧ strip L = strip lf :=
+  stack_roundtrip_core hv l b hI hwfh hn hwfl hp hk hdisp
+
+/-- the dispatch hypothesis is satisfiable: type 135 selects NeighborSolicitation, 129 Echo -/
+example : ∀ w : ICMPv6, w.typeCode = 0x8700 → nextICMPv6 w = Kind.ns.lt := by
+  intro w hw
+  simp [nextICMPv6, hw, Gen.Icmp.v6Type, Gen.Icmp.typeEchoRequest, Gen.Icmp.typeEchoReply, Gen.Icmp.typeRouterSolicitation, Gen.Icmp.typeRouterAdvertisement, Gen.Icmp.typeNeighborSolicitation, Gen.Icmp.typeNeighborAdvertisement, Gen.Icmp.typeRedirect, Gen.Icmp.typeMLDv1Query, Gen.Icmp.typeMLDv1Done, Gen.Icmp.typeMLDv1Report, Gen.Icmp.typeMLDv2Report, Kind.lt]
+example : ∀ w : ICMPv6, w.typeCode = 0x8100 → nextICMPv6 w = Kind.echo.lt := by
+  intro w hw
+  simp [nextICMPv6, hw, Gen.Icmp.v6Type, Gen.Icmp.typeEchoRequest, Gen.Icmp.typeEchoReply, Gen.Icmp.typeRouterSolicitation, Gen.Icmp.typeRouterAdvertisement, Gen.Icmp.typeNeighborSolicitation, Gen.Icmp.typeNeighborAdvertisement, Gen.Icmp.typeRedirect, Gen.Icmp.typeMLDv1Query, Gen.Icmp.typeMLDv1Done, Gen.Icmp.typeMLDv1Report, Gen.Icmp.typeMLDv2Report, Kind.lt]
+
+/-- ICMPv4 (or a message decoded as first layer) over a payload. -/
+theorem stack_roundtrip_single (l : AnyLayer) (b : SBuf) (hI : Inv b) (hwfl : wf l)
+    (hp : payloadAllowed l (contents b)) (hk : l.kind ≠ .icmp6) :
+    ∃ b1 lf L acts,
+      l.serialize b ⟨true, true⟩ = .ok (b1, lf) ∧
+      pktRun 3 l.kind (contents b1) =
+        .ok ⟨.lay L :: (if contents b = [] then [] else [.payload (contents b)]), acts, false, false⟩ ∧
+      strip L = strip lf :=
+  stack_roundtrip_single_core l b hI hwfl hp hk
 
 /-! ### the pinned (pre-fix) code violates the round trip: negation witnesses -/
 
